@@ -2,7 +2,8 @@
 
 Domain : configuration (Colang 1.0 / 2.x, 1-4 input rails drawn in order from the pool check / rewrite / both /
          shipped `self check input`, 0-2 output rails, 0-1 retrieval rail, dialog rails on/off,
-         enable_rails_exceptions on/off, v2: rails in config.yml or hand-written `flow input rails $input_text`)
+         enable_rails_exceptions on/off, v1 passthrough mode on/off, v2: rails in config.yml or hand-written
+         `flow input rails $input_text`; later turns may repeat an earlier user text verbatim)
          x conversation of 1-4 turns (hostile user texts around a per-turn marker, a dialog route and a verdict per
          (rail, turn)) x API (generate / generate_async).
 Oracle : reference model of the input chain (vf.pipeline.model_input) checked on three observation channels:
@@ -26,7 +27,9 @@ RULE = (
     "self check input}; 0-2 output rails; retrieval rail 0/1 (v1); dialog rails on/off; enable_rails_exceptions on/off; v2 rails "
     "declared in config.yml or hand-written `flow input rails $input_text`) x 1-4 turns, each with a user text = hostile "
     "characters/intents around a unique marker, a dialog route (predefined / LLM / mixed / LLM-chosen next step / custom action) "
-    "and a verdict accept|reject|rewrite per (rail, turn); run through LLMRails.generate or generate_async with a scripted LLM. "
+    "and a verdict accept|reject|rewrite per (rail, turn); a third of the later turns re-send, character by character, the text of "
+    "an earlier turn (same marker); a quarter of the v1 configurations run in passthrough mode (with and without dialog rails; "
+    "without them the LLM input is the chat message list, which the scripted LLM records); run through LLMRails.generate or generate_async with a scripted LLM. "
     "Non-trivial = at least 2 input rails and (a reject after an accepting/rewriting rail, or a rewrite followed by a later "
     "rail) in some turn, or a reject in a turn >= 2; distinct by the whole case."
 )
@@ -35,6 +38,7 @@ ASSUMPTIONS = [
     "Colang 2.x input rails are generated in the library's check shape only: rewriting is asserted for Colang 1.0 only, as the statement says",
     "the caller keeps the conversation the way the server does: previous user messages and returned replies are passed back as `messages` (v1) / the returned `state` (v2)",
     "the LLM text generated for un-blocked turns and what output rails do with refusals are not asserted here (C02)",
+    "raw passthrough mode (passthrough without dialog rails) hands the caller's own message list to the LLM: there only the message of the current turn (last list element) is asserted to be the rewritten one, earlier turns are the caller's business",
     "a turn that needs more than 100 internal events makes the Colang 1.0 runtime raise `Too many events.` (safety limit); such cases (many rails + long routes) are counted as skipped, not judged",
 ]
 
@@ -283,8 +287,8 @@ def _check(case, obs):
         sent_any.add(m["orig"])
         if v == 1 and not raw_mode:
             for s, orig in rewritten_before:
-                if orig in sent_plain:
-                    continue
+                if orig in sent_plain or orig == m["orig"]:
+                    continue  # (this turn carries the same text itself: check (4) and the chain check speak for it)
                 for c in o["llm"]:
                     if orig in str(c["prompt"]):
                         raise Violation(
